@@ -31,7 +31,9 @@ def crc_x25(data):
 def enc_addr(logical, physical):
     if physical is None:
         return bytes([(logical << 1) | 1])
-    return bytes([logical << 1, (physical << 1) | 1])
+    if logical < 128 and physical < 128:
+        return bytes([logical << 1, (physical << 1) | 1])
+    return bytes([(logical >> 7) << 1, (logical & 0x7F) << 1, (physical >> 7) << 1, ((physical & 0x7F) << 1) | 1])
 
 
 def enc_frame(dest, src, ctrl, info=b"", segmented=False):
@@ -344,6 +346,16 @@ class C18(fw.Prop):
             yield case([["script", ["-", "e6e7", "-", "00" + a.hex(), "-"]], ["send", "c001c1"]], "empty-fields", gran=gran)
             yield case([["script", [hx(LLC_RESP + self.data(rng, 600))]], ["send", "c001c1"]], "long-field", gran=gran)
             yield case([["script", [hx(LLC_RESP)]], ["send", "c001c1"]], "empty-answer", gran=gran)
+        # answer data that itself contains the LLC header bytes, with a segment boundary right in front of them (and elsewhere)
+        for gran in grans:
+            a = self.data(rng, 20) + LLC_RESP + self.data(rng, 15) + LLC_CMD + b"\xe6\xe7\x00" + self.data(rng, 4)
+            blob = LLC_RESP + a
+            for cutset in ([23], [23 + 3], [3], [3, 23, 41], [6, 23, 44]):
+                parts, prev = [], 0
+                for c in cutset + [len(blob)]:
+                    parts.append(blob[prev:c])
+                    prev = c
+                yield case([["script", [hx(x) for x in parts]], ["send", "c001c1"]], "llc-bytes-in-data", gran=gran)
         # request lengths x max information size
         for md in ([128, 16, 33] if not deep else [128, 127, 129, 130, 16, 17, 31, 64, 200]):
             for reqlen in ([1, 124, 125, 126, 300] if not deep else [1, 2, 122, 123, 124, 125, 126, 127, 128, 129, 250, 253, 254, 381, 700]):
@@ -367,7 +379,8 @@ class C18(fw.Prop):
         # the meter takes less than the client sends in one field
         yield case(self.exchange(rng, 5, 1, 100), "meter-max-info", maxData=128, maxInfo=64)
         # addresses
-        for server, client in (([1, None], 16), ([1, 17], 1), ([127, 127], 127), ([16, 1], 32)):
+        for server, client in (([1, None], 16), ([1, 17], 1), ([127, 127], 127), ([16, 1], 32), ([200, 17], 16), ([5, 200], 16), ([16383, 16383], 16),
+                               ([1, 0], 16), ([300, 5000], 100)):
             d = {"maxData": 128, "maxInfo": 128, "vs": 0, "vr": 0, "gran": rng.choice(grans), "gseed": 1, "server": server, "client": client,
                  "ops": [["connect"]] + self.exchange(rng, 200, 3, 200) + [["disconnect"]], "tag": "addresses"}
             yield self.make_case(d)
